@@ -76,11 +76,19 @@ cond_cases = st.builds(
     st.lists(st.sampled_from([0, 1, '', 'x', None, 'ABSENT']), min_size=1, max_size=4),
     st.lists(st.sampled_from(VEDITS), max_size=2))
 
+# a chain of add_output steps (two source blocks, two keys - also the same key twice) mixed with
+# rename / copy / delete: equivalent to the dictionary operations applied left to right
+AO_STEP = st.one_of(
+    st.tuples(st.just('ao'), st.sampled_from(['t', 'u']), st.sampled_from(['ctrl', 'other'])).map(list),
+    st.tuples(st.just('ao'), st.sampled_from(['t', 'u']), st.sampled_from(['ctrl', 'other'])).map(list),
+    st.tuples(st.sampled_from(['rename', 'copy']), st.sampled_from(['t', 'u']), st.sampled_from(['u', 'v', 't'])).map(list),
+    st.tuples(st.just('delete'), st.sampled_from(['t', 'u', 'v'])).map(list))
 ctrl_cases = st.builds(
-    lambda init, puts, how: {'k': 'ctrl', 'init': init, 'puts': puts, 'how': how},
+    lambda init, puts, how, chain: {'k': 'ctrl', 'init': init, 'puts': puts, 'how': how, 'ao_chain': chain},
     st.sampled_from([0, 1, '', 'on', None, 2.5, False, True, {}, {'k': 0}, []]),
     st.lists(st.sampled_from([0, 1, '', 'on', None, False, True, 7, {}, {'k': 0}, [], [0]]), max_size=4),
-    st.sampled_from(['name', 'object']))
+    st.sampled_from(['name', 'object']),
+    st.lists(AO_STEP, min_size=1, max_size=5))
 
 OPS = [
     ['add', {'a': 1}], ['add', {'b': 2}], ['add', {'a': 5, 'c': 6}], ['setdefault', {'a': 9}],
@@ -333,10 +341,30 @@ def edge_check(res, rise, fall, u_rise, u_fall, previous, value):
         res.fail('C16.edge', f"Edge({kwargs})(previous={previous!r}, value={value!r}) -> {got!r}, expected {want}")
 
 
+def ao_chain_model(chain, start, outputs):
+    """the equivalent dictionary operations, left to right"""
+    d = dict(start)
+    for step in chain:
+        if step[0] == 'ao':
+            d[step[1]] = outputs[step[2]]
+        elif step[0] == 'copy' or (step[0] == 'rename' and step[1] == step[2]):
+            if step[1] not in d:
+                return ['KeyError', repr(step[1])]
+            d[step[2]] = d[step[1]]
+        elif step[0] == 'rename':
+            if step[1] not in d:
+                return ['KeyError', repr(step[1])]
+            d[step[2]] = d.pop(step[1])
+        else:
+            d.pop(step[1], None)
+    return d
+
+
 def exec_ctrl(case, res):
     init = case['init']
     log = []
     obs = []
+    obs_chain = []
 
     async def scenario(loop):
         harness.reset()
@@ -351,6 +379,19 @@ def exec_ctrl(case, res):
         f_ifnot = edzed.IfOutput('_not_ctrl')
         f_nii = edzed.NotIfInitialized(ref)
         f_ao = edzed.DataEdit.add_output('o', ref).add(z=1)
+        other = edzed.Input('other', initdef='other-output')
+        f_chain = None
+        for step in case.get('ao_chain', []):
+            base = edzed.DataEdit if f_chain is None else f_chain
+            if step[0] == 'ao':
+                blk = {'ctrl': ref, 'other': 'other' if case['how'] == 'name' else other}[step[2]]
+                f_chain = base.add_output(step[1], blk)
+            elif step[0] == 'rename':
+                f_chain = base.rename(step[1], step[2]) if step[1] != step[2] else base.copy(step[1], step[2])
+            elif step[0] == 'copy':
+                f_chain = base.copy(step[1], step[2])
+            else:
+                f_chain = base.delete(step[1])
         ev_if = edzed.Event(rec, 'if', efilter=f_if)
         ev_ifnot = edzed.Event(rec, 'ifnot', efilter=f_ifnot)
         ev_nii = edzed.Event(rec, 'nii', efilter=[f_nii])
@@ -371,10 +412,23 @@ def exec_ctrl(case, res):
                 n = len(log)
                 r = [ev.send(src, value=5) for ev in (ev_if, ev_ifnot, ev_nii, ev_ao)]
                 obs.append(('run', cur, r, [(e['etype'], e['data']) for e in log[n:]]))
+                if f_chain is not None:
+                    start = {'t': 'T0', 'value': 5}
+                    try:
+                        got = f_chain(dict(start))
+                    except KeyError as err:
+                        got = ['KeyError', str(err)]
+                    obs_chain.append((cur, got))
 
     harness.run_case(scenario)
     if not obs:
         return
+    for cur, got in obs_chain:
+        want = ao_chain_model(case['ao_chain'], {'t': 'T0', 'value': 5}, {'ctrl': cur, 'other': 'other-output'})
+        if got != want:
+            res.fail('C16.add_output_chain', f"{case['ao_chain']} with ctrl output {cur!r}: {got!r}, "
+                     f"the dictionary operations give {want!r}")
+            break
     pre = obs[0]
     # a filter vetoes by any false result that is not a mapping (Event.send semantics)
     if isinstance(pre[1], dict) or pre[1]:
